@@ -84,13 +84,16 @@ def f32(x):
         return str(x)
 
 
-def canon_save(j):
-    """Save documents: keys sorted, every number that is not an int mapped to its f32 bits,
-    ints that are whole floats unified."""
+def canon_save(j, drop_choice_index=False):
+    """Save documents: keys sorted, every number that is not an int mapped to its f32 bits.
+    `drop_choice_index`: the `index` stored with each pending choice is cosmetic (it is
+    rewritten whenever the host reads the choices) and is ignored in lockstep comparisons."""
     if isinstance(j, dict):
-        return {k: canon_save(j[k]) for k in sorted(j)}
+        if drop_choice_index and "originalChoicePath" in j and "index" in j:
+            j = dict(j, index=0)
+        return {k: canon_save(j[k], drop_choice_index) for k in sorted(j)}
     if isinstance(j, list):
-        return [canon_save(x) for x in j]
+        return [canon_save(x, drop_choice_index) for x in j]
     if isinstance(j, float):
         return {"f32": f32(j)}
     return j
@@ -106,15 +109,16 @@ def canon_events(evs):
     return rest + obs
 
 
-def canon_result(op, r, messages=True):
-    """Canonical form of one result for comparison between code and model."""
+def canon_result(op, r, messages=True, lockstep=False):
+    """Canonical form of one result for comparison between code and model
+    (`lockstep=True`: between two runs of the code; cosmetic choice indices dropped)."""
     if not isinstance(r, dict):
         return r
     out = {"r": r.get("r")}
     if r.get("r") == "ok":
         v = r.get("v")
         if op and op[0] == "savejson":
-            v = canon_save(v)
+            v = canon_save(v, drop_choice_index=lockstep)
         out["v"] = v
     elif r.get("r") == "err":
         out["k"] = r.get("k")
